@@ -5,6 +5,8 @@ CONSTANTS
   Algo = "asis"
   SeedCopyreg = "live"
   InitGuard = FALSE
+  SharedCtx = FALSE
+  CtxCopy = TRUE
   Scns = {}
 INVARIANT WitDump
 CHECK_DEADLOCK FALSE
